@@ -187,10 +187,25 @@ func checkErrCall(c *Ctx, p *core.Program, fn *ssa.Function, call ssa.CallInstru
 		}
 	}
 	_, fnHasErr := core.ReturnsError(fn.Signature)
+	// a helper that reports through a flag next to its error (`done, err := h(); if done { return err }`):
+	// the edges on which the flag has a value for which the helper always returns a nil error count
+	// as nil edges
+	flagNil := core.FlagEdgesOf(fn, call, func(h *ssa.Function, ret *ssa.Return) bool {
+		ei, ok := core.ReturnsError(h.Signature)
+		if !ok || len(ret.Results) <= ei {
+			return false
+		}
+		return core.IsNilConst(core.ResolveCellLoad(ret.Results[ei], ret))
+	})
 	edge := func(b *ssa.BasicBlock, i int) bool {
 		if ifi, ok := b.Instrs[len(b.Instrs)-1].(*ssa.If); ok {
 			if nilSucc, ok := core.NilTest(ifi, al); ok && nilSucc == i {
 				return false // crossing the nil edge: path satisfied
+			}
+		}
+		for _, e := range flagNil {
+			if e.B == b && e.Succ == i {
+				return false
 			}
 		}
 		return true
